@@ -1,4 +1,5 @@
 import ExaModel.Lemmas.FieldsAccept
+import ExaModel.Generated.PyAnnounce
 set_option linter.unusedSimpArgs false
 /-!
 # C18 — Route text is accepted if and only if it can be sent
@@ -275,5 +276,36 @@ example : msgFits 65535 (16345 * 4 + 4) 128 = true ∧ msgFits 65535 (16346 * 4 
 -- 600 AS numbers in one written segment: 255 + 255 + 90
 example : segSplit 600 = [255, 255, 90] := by decide
 example : asPathLen .asn4 600 = 2406 := by decide
+
+/-! ### what every announce needs (`validate_announce_nlri`, regenerated from /repo on every run)
+
+The function is "the single source of truth for announce validation": the encoder raises on what it refuses, the API
+applies it before answering and — since the repairs of F104 / F105 / F107 — so do the configuration file and the
+`announce ipv4|ipv6` handlers.  Inputs: the family is not FlowSpec, the next hop is the undefined one, the SAFI carries
+labels / a route distinguisher, the NLRI object has none. -/
+
+open Exa.Generated.PyAnnounce in
+/-- **Accepted iff complete.**  An announce is accepted exactly when it has a next hop (FlowSpec excepted), labels when
+    its SAFI carries labels and a route distinguisher when its SAFI carries one. -/
+theorem announce_py_accepts_iff (notFlow nhUndefined safiHasLabel noLabel safiHasRd noRd : Bool) :
+    Announce.validate_announce_nlri notFlow nhUndefined safiHasLabel noLabel safiHasRd noRd = none ↔
+      ¬ (notFlow = true ∧ nhUndefined = true) ∧ ¬ (safiHasLabel = true ∧ noLabel = true) ∧
+      ¬ (safiHasRd = true ∧ noRd = true) := by
+  cases notFlow <;> cases nhUndefined <;> cases safiHasLabel <;> cases noLabel <;> cases safiHasRd <;> cases noRd <;> decide
+
+open Exa.Generated.PyAnnounce in
+/-- **Which message.**  The missing next hop is reported first, then the missing labels, then the missing route
+    distinguisher (the k-th message of the source). -/
+theorem announce_py_reason (notFlow nhUndefined safiHasLabel noLabel safiHasRd noRd : Bool) :
+    Announce.validate_announce_nlri notFlow nhUndefined safiHasLabel noLabel safiHasRd noRd =
+      if notFlow && nhUndefined then some 1
+      else if safiHasLabel && noLabel then some 2
+      else if safiHasRd && noRd then some 3
+      else none := by
+  cases notFlow <;> cases nhUndefined <;> cases safiHasLabel <;> cases noLabel <;> cases safiHasRd <;> cases noRd <;> rfl
+
+-- `route 10.0.0.0/24` (no next-hop): refused with the first message; a labelled VPN route with everything: accepted
+example : Exa.Generated.PyAnnounce.Announce.validate_announce_nlri true true false false false false = some 1 := by decide
+example : Exa.Generated.PyAnnounce.Announce.validate_announce_nlri true false true false true false = none := by decide
 
 end Exa.Props.C18
